@@ -141,6 +141,8 @@ func runSweep(c *lib.Ctx, dir string) error {
 	pipes := pipeForms()
 	calls = append(calls, redirs...)
 	calls = append(calls, pipes...)
+	aff, affCounts := affinityCalls(tab)
+	calls = append(calls, aff...)
 	// directed probes: every known finding is re-probed in every run
 	have := map[string]bool{}
 	for _, cl := range calls {
@@ -160,9 +162,9 @@ func runSweep(c *lib.Ctx, dir string) error {
 		clampDoc = append(clampDoc, fmt.Sprintf("%s arg %d %v: %s", cl.Cmd, cl.Pos, cl.Classes, cl.Why))
 	}
 	c.Set("sweep", map[string]any{"commands": len(tab), "pool_classes": len(pool), "exhaustive_arity": maxExh, "single_deviation_arities": devArities, "sampled_arity": sampleArity, "sampled_calls": nSample,
-		"command_calls": nSweep, "redirection_forms": len(redirs), "pipeline_forms": len(pipes), "directed_probes": nProbe,
+		"command_calls": nSweep, "redirection_forms": len(redirs), "pipeline_forms": len(pipes), "affinity_calls": affCounts, "directed_probes": nProbe,
 		"skipped_commands": skipped, "skipped_modules": skipModules, "clamped_calls": nClamped, "clamp_list": clampDoc})
-	c.Logf("sweep: %d commands, %d calls (%d command calls, %d redirection forms, %d pipeline forms, %d probes)", len(tab), len(calls), nSweep, len(redirs), len(pipes), nProbe)
+	c.Logf("sweep: %d commands, %d calls (%d command calls, %d redirection forms, %d pipeline forms, %d affinity calls %v, %d probes)", len(tab), len(calls), nSweep, len(redirs), len(pipes), len(aff), affCounts, nProbe)
 
 	sw, err := newSweeper(c)
 	if err != nil {
